@@ -158,6 +158,9 @@ func loadKnown() {
 	}
 }
 
+// IsKnown reports whether key is a listed known finding (for native fuzz targets).
+func IsKnown(key string) bool { return isKnown(key) }
+
 func isKnown(key string) bool {
 	knownOnce.Do(loadKnown)
 	for _, e := range knownList {
@@ -369,6 +372,13 @@ func Run[C any](t *testing.T, s Spec[C]) {
 		}
 	}
 
+	journal := os.Getenv("VERIF_JOURNAL")
+	note := func(c C) {
+		if journal != "" {
+			b, _ := json.Marshal(map[string]any{"property": s.ID, "name": s.Name, "case": c})
+			os.WriteFile(journal, b, 0o644)
+		}
+	}
 	useEnum := s.Enum != nil && (s.EnumTiers == "" || s.EnumTiers == "both" || s.EnumTiers == env.Tier)
 	if s.Enum != nil && !useEnum && s.Gen == nil {
 		t.Skipf("enumeration %s/%s not part of tier %s", s.ID, s.Name, env.Tier)
@@ -379,6 +389,7 @@ func Run[C any](t *testing.T, s Spec[C]) {
 		p.Exhaustive = true
 		complete := true
 		s.Enum(env.Shard, env.NShards, func(c C) bool {
+			note(c)
 			r := evalCase(&s, c)
 			if r.fail != nil {
 				onFail(c, r)
@@ -409,6 +420,7 @@ func Run[C any](t *testing.T, s Spec[C]) {
 		os.RemoveAll(filepath.Join("testdata", "rapid"))
 		ok = t.Run("rapid", rapid.MakeCheck(func(rt *rapid.T) {
 			c := s.Gen(rt)
+			note(c)
 			r := evalCase(&s, c)
 			// after the first failure (shrinking / reproduction phase) only the
 			// same failure key counts, so shrinking cannot drift to another bug
